@@ -363,6 +363,8 @@ func c06Options(c *mon.Child) {
 		{"UseLookahead(0)", []participle.Option{participle.UseLookahead(0)}},
 		{"Elide given twice", []participle.Option{participle.Elide("Comment"), participle.Elide("Comment")}},
 		{"Unquote and Upper on the same type", []participle.Option{participle.Unquote("String"), participle.Upper("String")}},
+		{"Unquote of token types that carry no quotes", []participle.Option{participle.Unquote("Ident", "Int")}},
+		{"Unquote of every literal type of the default lexer", []participle.Option{participle.Unquote("String", "Char", "RawString")}},
 	}
 	for i, oc := range cases {
 		key := fmt.Sprintf("opt%d", i)
@@ -378,7 +380,7 @@ func c06Options(c *mon.Child) {
 			continue
 		}
 		if err == nil && p != nil {
-			for _, in := range []string{"a b", "", "a // c\n b", "\"s\" a"} {
+			for _, in := range []string{"a b", "", "a // c\n b", "\"s\" a", "ab 1 22", "a 'c' `r` \"\\q\"", "x"} {
 				c06One(c, key, gram.WrapParser(p), "flat list grammar built with "+oc.desc, in, "o.txt", false, func() interface{} { return map[string]interface{}{"options": oc.desc, "input": in} })
 			}
 		} else {
@@ -397,6 +399,7 @@ func c06Child(c *mon.Child) {
 		c06Targets(c)
 		c06StructOfTargets(c)
 		c06ActionErrors(c)
+		c06EmptyMatches(c)
 	}
 	// Part A: generated grammars x arbitrary bytes / soup / near-derivations
 	nInputs := c.N(60, 300)
